@@ -247,6 +247,28 @@ func golubKahanSVD(inSitu *InSitu, epsilon float64) (Matrix, Matrix, Matrix, err
       }
     }
   }
+  // singular values are non-negative: move the sign of a negative
+  // diagonal entry into the corresponding column of V (or U)
+  for i := 0; i < n; i++ {
+    s := B.At(i,i)
+    if s.GetFloat64() < 0.0 {
+      s.Neg(s)
+      if V != nil {
+        for j := 0; j < n; j++ {
+          v := V.At(j,i)
+          v.Neg(v)
+        }
+      } else
+      if U != nil {
+        // U holds U^T at this point
+        _, m := U.Dims()
+        for j := 0; j < m; j++ {
+          u := U.At(i,j)
+          u.Neg(u)
+        }
+      }
+    }
+  }
   if U != nil {
     U = U.T()
   }
